@@ -30,6 +30,8 @@ struct Thr {
   bool has_deadline = false;
   int64_t deadline = 0;
   bool timed_out = false;
+  bool spurious = false;
+  uint8_t pending = 0; // kind of the operation announced at the current schedule point
   int join_target = -1;
   void* mtx = nullptr;
   bool yielded = false;
@@ -251,6 +253,17 @@ void reschedule(Thr* me) {
     int64_t when;
     bool timers = any_timer(&who, &when);
     if (scripted) {
+      if (G.cfg.script[G.script_pos] <= -2) { // spurious futex return of thread (-2 - entry)
+        int t = -2 - G.cfg.script[G.script_pos];
+        G.script_pos++;
+        if (t >= G.nthr || G.thr[t].st != BLK_FUTEX) end_now(ST_SCRIPT_MISMATCH, "script asks for a spurious wake of a thread that is not blocked");
+        G.thr[t].st = RUNNABLE;
+        G.thr[t].has_deadline = false;
+        G.thr[t].spurious = true;
+        emit("{\"k\":\"spur\",\"wakes\":%d,\"now_us\":%lld}", t, (long long)(G.vclock / 1000));
+        scripted = G.script_pos < G.cfg.script_len;
+        continue;
+      }
       if (G.cfg.script[G.script_pos] == -1) { // explicit time advance
         G.script_pos++;
         if (!timers) end_now(ST_SCRIPT_MISMATCH, "script asks for a tick but no timer is pending");
@@ -269,6 +282,28 @@ void reschedule(Thr* me) {
       fire_timer(who, when);
       continue;
     }
+    if (G.cfg.spurious_permille > 0 && S != "pb" && (int)(rnd() % 1000) < G.cfg.spurious_permille) {
+      // a futex wait may return without a wake (signal, spurious): pick a blocked thread
+      int cand[MAXT];
+      int m = 0;
+      for (int i = 0; i < G.nthr; i++)
+        if (G.thr[i].st == BLK_FUTEX) cand[m++] = i;
+      if (m > 0) {
+        Thr& t = G.thr[cand[rnd() % (uint64_t)m]];
+        if (t.has_deadline && t.deadline > G.vclock) {
+          // it returns some time into its wait (never past another pending timer)
+          int64_t lim = t.deadline;
+          for (int i = 0; i < G.nthr; i++)
+            if (i != t.id && (G.thr[i].st == SLEEPING || (G.thr[i].st == BLK_FUTEX && G.thr[i].has_deadline)) && G.thr[i].deadline < lim) lim = G.thr[i].deadline;
+          if (lim > G.vclock) G.vclock += (int64_t)(rnd() % (uint64_t)(lim - G.vclock));
+        }
+        t.st = RUNNABLE;
+        t.has_deadline = false;
+        t.spurious = true;
+        emit("{\"k\":\"spur\",\"wakes\":%d,\"now_us\":%lld}", t.id, (long long)(G.vclock / 1000));
+        continue;
+      }
+    }
     break;
   }
   int next = -1;
@@ -277,7 +312,9 @@ void reschedule(Thr* me) {
     // entries name the program thread that performs the next *logged* step; the main thread
     // (spawn / join only) runs whenever it can; start / exit / clock points consume nothing
     if (G.thr[0].st == RUNNABLE) next = 0;
-    else {
+    for (int i = 1; next < 0 && i < G.nthr; i++)  // a thread that only has to exit does so at once (so it can be joined)
+      if (G.thr[i].st == RUNNABLE && G.thr[i].pending == K_EXIT) next = i;
+    if (next < 0) {
       next = G.cfg.script[G.script_pos];
       if (next >= 0 && next < G.nthr && G.thr[next].st == SLEEPING) fire_timer(next, G.thr[next].deadline); // its sleep is over
       if (next < 0 || next >= G.nthr || G.thr[next].st != RUNNABLE) {
@@ -390,7 +427,7 @@ int64_t now_ns() {
 
 void before(const Op& op) noexcept {
   if (!active()) return;
-  (void)op;
+  tls_me->pending = op.kind;
   reschedule(tls_me);
 }
 
@@ -559,7 +596,9 @@ int futex_wait(uint32_t* addr, uint32_t val, const struct timespec* to) noexcept
   me->timed_out = false;
   me->waddr = nullptr;
   count_step();
-  emit("{\"k\":\"fret\",\"t\":%d,%s,\"res\":\"%s\"}", me->id, loc.c_str(), timed_out ? "timeout" : "woken");
+  bool spur = me->spurious;
+  me->spurious = false;
+  emit("{\"k\":\"fret\",\"t\":%d,%s,\"res\":\"%s\"}", me->id, loc.c_str(), timed_out ? "timeout" : spur ? "spurious" : "woken");
   if (timed_out) {
     errno = ETIMEDOUT;
     return -1;
